@@ -311,7 +311,8 @@ Definition const_sp (l : sleaf) : sconst token :=
   | LfBool b => ScBool token bool_t hash_t (if b then true_t else false_t) b
   | LfStr c => ScTok token (str_tok c) (str_kind c)
   | LfName n => ScTok token (id_tok n) CkInt                   (* no constant: outside the guard *)
-  | LfTInt _ _ v | LfBits _ v => ScTok token (int_tok v) CkInt  (* typed constants in declarations: outside the guard *)
+  | LfTInt k neg v => ScTyped token k (tykw_tok k) hash_t (if neg then Some (minus_t, true) else None) (int_tok v) (LfTInt k neg v)
+  | LfBits k v => ScTyped token k (tykw_tok k) hash_t None (int_tok v) (LfBits k v)
   | LfReal _ _ lit => ScTok token (tkk KFixedPoint lit) CkFixed
   end.
 Definition spec_sp (i : dinit) : sspec token :=
